@@ -1,12 +1,22 @@
 #!/bin/bash
-# Development helper: runs the checks against every kept behaviour-preserving change (benign/<W>/<V>/patch.diff).
-# usage: benignall.sh [binary] [outfile]
+# Development helper: runs the checks against every kept behaviour-preserving change (benign/<W>/<V>/patch.diff),
+# six at a time.   usage: benignall.sh [binary] [outfile]
 BIN=${1:-/verif/pqlcheck}
 OUT=${2:-/tmp/benign_res.txt}
-: > $OUT
+TMP=$(mktemp -d /tmp/bnall.XXXX)
+export BIN TMP
+one() {
+  d=$1
+  n=$(basename $(dirname $d))_$(basename $d)
+  NOSUITE=1 WIDTH=${WIDTH:-260} /verif/benigncheck.sh $d/patch.diff $BIN all 2>&1 | head -${LINES_MAX:-14} > $TMP/$n.txt
+}
+export -f one
 for d in /verif/benign/*/*/; do
-  f=$d/patch.diff; [ -f $f ] || continue
-  echo "=== $(basename $(dirname $d))/$(basename $d)" >> $OUT
-  NOSUITE=1 WIDTH=${WIDTH:-260} /verif/benigncheck.sh $f $BIN all 2>&1 | head -${LINES_MAX:-14} >> $OUT
+  [ -f $d/patch.diff ] && echo "${d%/}"
+done | xargs -P 6 -I{} bash -c 'one {}'
+: > $OUT
+for f in $(ls $TMP/*.txt | sort); do
+  n=$(basename $f .txt); echo "=== ${n%_*}/${n#*_}" >> $OUT; cat $f >> $OUT
 done
+rm -rf $TMP
 grep -c "^===" $OUT
